@@ -134,6 +134,7 @@ PROPS["C05F"] = {
         "fold half of C05 only (plus the fold halves of C12 and C14); the lexical-parser half is not covered",
         "no statement about running time: head_skip_spaces in the stamp side door loops forever in Rust for a format with an empty parse space (no shipped format has one); the model runs it on fuel",
     ],
+}
 
 TB_LEX = TB_COMMON + [
     "hand-written control skeleton of the lexical formatter / parser models (Model/LexFormatter.v, Model/LexParser.v) tied by the correspondence check; the three format tables, the char classes and the `slice_starts_with_str` length guard are regenerated (T2)",
